@@ -4,6 +4,10 @@ Only renaming, filtering and flattening happens here; every judgement is made by
 TLA+ specification that consumes the result.
 """
 ACME_PFX = "urn:ietf:params:acme:error:"
+# the error types http::post does not retry (RFC 8555 6.7 minus AcmeError::is_recoverable): the refusal ends the attempt at once
+NONRECOVERABLE = {"accountDoesNotExist", "alreadyRevoked", "badCSR", "badPublicKey", "badRevocationReason", "badSignatureAlgorithm", "caa",
+                  "compound", "externalAccountRequired", "incorrectResponse", "invalidContact", "orderNotReady", "rejectedIdentifier",
+                  "unauthorized", "unsupportedContact", "unsupportedIdentifier", "userActionRequired"}
 
 
 def nz(v):
@@ -216,6 +220,7 @@ def flow_layer(events, cid, info, vc, hook_types):
     hook_types: hook name -> ("chal"|"clean"|"postop"|other, challenge type)."""
     out = []
     last_post_cert = {}
+    last_problem = None
     for e in events:
         src, ev = e.get("src"), e.get("ev")
         if src == "drv":
@@ -227,6 +232,8 @@ def flow_layer(events, cid, info, vc, hook_types):
         if src == "acmed":
             if ev in ("HttpPost", "HttpGet"):
                 last_post_cert[e.get("ep")] = e.get("cert")
+                if e.get("cert") == cid:
+                    last_problem = None      # a further request: the earlier refusal did not end the attempt
             if ev == "Sleep" and (e.get("cert") == cid or e.get("blocking")):
                 out.append({"e": "Sleep", "ms": min(int(e["ms"]), 100000)})
             if e.get("cert") != cid:
@@ -237,7 +244,12 @@ def flow_layer(events, cid, info, vc, hook_types):
             elif ev == "AttemptEnd":
                 out.append({"e": "AttemptEnd", "ok": bool(e["is_success"]), "real": ms})
             elif ev == "ReqEnd":
-                out.append({"e": "ReqEnd", "ok": bool(e["is_success"]), "status": e.get("status") or ""})
+                # "with the error text": when the request that ended the attempt was refused by the CA with a problem document of a
+                # type the client does not retry, the CA's own message (its detail) is part of what is reported
+                st_txt = e.get("status") or ""
+                out.append({"e": "ReqEnd", "ok": bool(e["is_success"]), "status": st_txt,
+                            "carries": last_problem is None or last_problem in st_txt})
+                last_problem = None
             elif ev == "KeyPair":
                 out.append({"e": "KeyPair", "how": e["how"]})
             elif ev == "FileWrite" and e.get("ftype") in ("pk", "crt"):
@@ -250,6 +262,11 @@ def flow_layer(events, cid, info, vc, hook_types):
             st = (e.get("resp") or {}).get("status")
             kind = e["kind"]
             fault = e.get("fault")
+            pb = (e.get("resp") or {}).get("problem")
+            last_problem = None
+            if pb and isinstance(st, int) and st >= 400 and pb["detail_len"] <= 200 and pb["detail"].isascii() and pb["detail"].strip() \
+                    and pb["type"].startswith(ACME_PFX) and pb["type"][len(ACME_PFX):] in NONRECOVERABLE:
+                last_problem = pb["detail"]
             if kind == "newOrder" and "identifiers" in d and isinstance(d.get("identifiers"), list):
                 ids = []
                 for x in d["identifiers"]:
